@@ -100,12 +100,13 @@ def run(tier, seed):
     tasks = [(m0, label, s, cfg, n, bound, cap) for (label, s, cfg) in W for n in ns]
     generic = []
     if tier != 'quick':
-        # every series of the general alphabet (<= 3 file patches, <= 1 deviation) that spreads over >= 2 files and has >= 2 patches:
+        # every 8th series of the general alphabet (<= 3 file patches, <= 1 deviation) that spreads over >= 2 files and has >= 2 patches:
         # N = 2, <= 1 preemption
         for s in tq.enumerate_series(3, 1, allow_after_failure=1):
             files = {f for p in s for fp in p.fps for f in fp.files}
             if len(s) >= 2 and len(files) >= 2:
                 generic.append(s)
+        generic = generic[::8]   # every 8th of ~10 k series: the full set took more than 45 minutes
         tasks += [(m0, 'generic: ' + tq.describe_series(s), s, {'backup': 'onfail', 'quiet': True}, 2, 1, 600) for s in generic]
     # sanity of the thread-count argument: N = 16 on the default schedules
     tasks += [(m0, label, s, cfg, 16, 0, 200) for (label, s, cfg) in W[:: (4 if tier == 'quick' else 1)]]
